@@ -145,6 +145,15 @@ def step_obligations():
     return obs
 
 
+def slice_obligation():
+    o = vmstep.step("C14", "C14.step.ARR_SLICE.bounded", "h_c14_slice", "ARR_SLICE", must_have=[r"C14\.slice", r"COVER"], timeout=900, witness=None)
+    o["defines"].update({"VERIF_M0": 128, "VERIF_M1": 128, "VERIF_M2": 4, "VERIF_STACK_SIZE": 5, "VERIF_ARR_CAP": 3})
+    o["unwind"] = 5
+    o["strength"] = "B(source array capacity <= 3; int or distinct string elements; start and length over the full int64 range)"
+    o["functions"] = ["vm_core_execute[ARR_SLICE]", "vm_array_slice"]
+    return [o]
+
+
 HANN = [("src/nanovm/heap.c", "contracts/loops/heap.c.loops")]
 KINDS = {"scalar": 0, "string": 5, "array": 7, "struct": 8, "union": 10, "tuple": 12, "closure": 11}
 NOBODY = ["release_hashmap", "vm_hashmap_new", "vm_hashmap_get", "vm_hashmap_set", "vm_hashmap_has", "vm_hashmap_delete",
@@ -207,4 +216,5 @@ def obligations(repo):
     obs += release_obligations()
     obs += container_obligations()
     obs += step_obligations()
+    obs += slice_obligation()
     return obs
